@@ -278,8 +278,12 @@ def e8_alias_discipline(ctx) -> None:
                                       "the container its owner (and every later minimisation step) sees is left untouched")
                 else:
                     ctx.ok("E8", f"{m.qualname}: `{name}` (alias of {norm(owners[0][1])}) is only ever updated in place")
-    if n < 1:
+    scanned = sum(len(P.need_class(c).methods) for c in ("ForestRuleExtractor", "TableMethod", "RuleDBForest"))
+    if scanned < 30:
         ctx.floor("E8", 99)
+    elif n < 1:
+        # the canonical form reads single-definition aliases through; only a re-bound one is still a local
+        ctx.ok("E8", f"{scanned} methods of the forest classes: no local alias of a container owned by self is re-bound")
 
 
 def _is_self_container(e: ast.AST) -> bool:
@@ -469,3 +473,30 @@ def _is_none_test_of_alias(f, t: ast.AST, target: ast.Attribute) -> bool:
 def _is_none_test(t: ast.AST, target: str) -> bool:
     return (isinstance(t, ast.Compare) and len(t.ops) == 1 and isinstance(t.ops[0], ast.Is) and norm(t.left) == target
             and isinstance(t.comparators[0], ast.Constant) and t.comparators[0].value is None)
+
+
+def e12_cache_before_recompute(ctx) -> None:
+    """The extractor is handed the rules it already knows (expand_verified passes the rules
+    of the specification being expanded, which the offered pack may be unable to make
+    again); a needed key found there is not recomputed.  `d.get(k, f(k))` evaluates f(k)
+    whether or not k is in d."""
+    P = ctx.P
+    m = P.need_method(EX, "rules", own=True)
+    f = m.node
+    ctx.analysed(m)
+    calls = [c for c in walk_local(f) if isinstance(c, ast.Call) and norm(c.func) == "self._find_rule"]
+    if not calls:
+        ctx.violation("E12", f, "ForestRuleExtractor.rules no longer recomputes the keys that are not cached", construct=f"{EX}.rules _find_rule")
+        return
+    for c in calls:
+        par = getattr(c, "_parent", None)
+        if isinstance(par, ast.Call) and isinstance(par.func, ast.Attribute) and par.func.attr in ("get", "setdefault", "pop") and c in par.args[1:]:
+            ctx.violation("E12", par, f"`{norm(par)[:80]}` evaluates `{norm(c)}` before looking the key up: a cached rule that the pack cannot make again makes the extraction "
+                          "raise although the rule is at hand")
+            continue
+        key = norm(c.args[0]) if c.args else "?"
+        gs = C.guard_texts(f, c)
+        if any((not pol) and t.startswith(f"{key} in ") for t, pol in gs) or any(pol and t.startswith(f"{key} not in ") for t, pol in gs):
+            ctx.ok("E12", "a needed key is recomputed only when the cache does not hold it")
+        else:
+            ctx.violation("E12", c, f"`{norm(c)}` is evaluated without `{key} not in <cache>`: cached rules are recomputed (and fail when the pack cannot make them)")
